@@ -8,7 +8,7 @@
    distinct field and variant names); dyn_ser: to_stdvec_dyn; enc: the static encoder of
    C01/C02.  The host's float conversions are parameters; the only fact used about them is
    that widening an f32 and narrowing it back is the identity. *)
-From PV Require Import Base MachineInt VarintParams GenLoops DataModel Schema SchemaConv Conform Dyn JsonOf Ser VarintCore DynAgree DynAgreeDe DynArmDecl GenDynArms DynArms DynArmFacts.
+From PV Require Import Base MachineInt VarintParams GenLoops DataModel Schema SchemaConv Conform Dyn JsonOf Ser VarintCore DynAgree DynAgreeDe DynArmDecl GenDynArms DynArms DynCompositeExpected GenDynComposite DynArmFacts.
 Open Scope N_scope.
 
 (* encoding the serde_json form of a value under its schema yields exactly the bytes the static
@@ -81,6 +81,14 @@ Example C17_example :
   dyn_ser (fun _ => 0) (fun b => 1069547520) s (json_of (fun b => 4609434218613702656) v) = DOk (enc (erase v)).
 Proof. repeat split; vm_compute; reflexivity. Qed.
 
+(* the non-scalar arms of both walks (strings, chars, byte arrays, options, sequences, tuples,
+   maps, structs, enums, pointer-sized integers, the schema kind) are, token for token up to
+   renaming of locals, the code the hand model Dyn.v was written from
+   (tools/dyn_arm_templates.json), with the same error kinds and tag bytes at the holes *)
+Theorem C17_composite_arms_are_the_source :
+  dyn_ser_composite_holes = dyn_ser_composite_expected /\ dyn_de_composite_holes = dyn_de_composite_expected.
+Proof. exact dyn_composite_is_source. Qed.
+
 Print Assumptions C17_encode_agrees.
 Print Assumptions C17_decode_agrees.
 Print Assumptions C17_private_copies_agree.
@@ -88,3 +96,4 @@ Print Assumptions C17_scalar_arms_are_the_source.
 Print Assumptions C17_scalar_arms_cover.
 Print Assumptions C17_decoder_scalar_arms_are_the_source.
 Print Assumptions C17_decoder_scalar_arms_cover.
+Print Assumptions C17_composite_arms_are_the_source.
